@@ -16,9 +16,12 @@ LEVEL_ASSUME = ['transactions are serial in one process (tx_lock); statement-lev
 def known_sig(t, l, clause):
     """Situation attributes used to match known findings narrowly (see known_findings.jsonl)."""
     out = {}
+    # (the with-items version of "no task left RUNNING at rest" shares the situations of the general clause)
+    ck = 'NoStuckTaskAtRest' if clause == 'ItemsTaskCompletes' else clause
     # a started / finished join re-armed (set back to WAITING) by Task.defer on a later trigger
     # (a join with a retry policy that its own completion step sets back to WAITING is the retry policy at work, not this)
     rearmed = False
+    rearmed_names = set()
     retry_waits = {}        # join sid -> (time its retry policy set it WAITING, delay)
     early = False
     for s in t['steps'][:l]:
@@ -32,12 +35,22 @@ def known_sig(t, l, clause):
                     retry_waits[wr['sid']] = (s['ev'].get('now', 0), t['prog']['tasks'][nm].get('delay', 0))
                 else:
                     rearmed = True
+                    rearmed_names.add(nm)
             if wr['kind'] == 'tk' and wr['frm'] == 'WAITING' and wr['to'] == 'RUNNING' and wr['sid'] in retry_waits \
                     and s['ev']['what'] == '_refresh_task_state':
                 t0, dl = retry_waits.pop(wr['sid'])
                 if s['ev'].get('now', 0) < t0 + dl:
                     early = True
     out['join_rearmed'] = rearmed
+    # a re-armed join had FAILED before and its on-error / on-complete targets had been started already (they stay as they are)
+    routed = False
+    for k_, st_ in enumerate(t['steps'][:l]):
+        for wr in st_['ev'].get('writes', []):
+            if wr['kind'] == 'tk' and wr['frm'] == 'ERROR' and wr['to'] == 'WAITING' and k_ >= 1:
+                prev = [x for x in t['steps'][k_ - 1]['obs']['tk'] if x['sid'] == wr['sid']]
+                if prev and prev[0]['next']:
+                    routed = True
+    out['rearmed_join_had_failed_and_routed'] = routed
     # resume of a parent whose sub-workflow fails inside the resume transaction: the parent task is moved PAUSED -> ERROR by
     # Task.update() (no routing, next_tasks left NULL)
     out['parent_task_failed_by_update_at_resume'] = any(
@@ -56,7 +69,7 @@ def known_sig(t, l, clause):
         wr['kind'] == 'tk' and wr['frm'] == 'DELAYED' and wr['to'] in ('SUCCESS', 'ERROR') and st['ev']['what'] == 'on_action_complete'
         for st in t['steps'][:l] for wr in st['ev'].get('writes', []))
     ev = t['steps'][l - 1]['ev']
-    if clause in ('NoHang', 'NoWaitingAtRest', 'Prescribed'):
+    if ck in ('NoHang', 'NoWaitingAtRest', 'Prescribed'):
         # KF_ResumeJoinNoRefresh: a join still WAITING at rest whose row was created by a resume step
         first = {}
         for k, s in enumerate(t['steps'][:l]):
@@ -105,8 +118,20 @@ def known_sig(t, l, clause):
                             any(a['task'] == wr['sid'] and a['state'] == 'RUNNING' for a in st['obs']['ax']):
                         tfr = True
     out['timeout_beat_running_action_of_retry_task'] = tfr
+    rr_all = [k for k, st in enumerate(t['steps'][:l]) if st['ev']['kind'] == 'op' and st['ev']['what'] == 'rerun' and st['ev']['exc'] == 'none']
+    if ck in ('NoHang', 'NoWaitingAtRest', 'NoStuckTaskAtRest', 'Prescribed') and rr_all:
+        # rerun / skip of a finished execution in which a join was still WAITING: its refresh jobs ran while the execution was
+        # finished (no effect) and nothing schedules another one
+        o = t['steps'][l - 1]['obs']
+        k0 = rr_all[0]
+        before = t['steps'][k0 - 1]['obs'] if k0 >= 1 else {'tk': [], 'wf': []}
+        was_waiting = set(x['sid'] for x in before['tk'] if x['state'] == 'WAITING')
+        root_before = [w for w in before['wf'] if w['sid'] == 'r']
+        unfinished = [x for x in o['tk'] if x['state'] not in ('SUCCESS', 'ERROR', 'CANCELLED', 'SKIPPED')]
+        out['unfinished_are_joins_waiting_since_the_finished_execution_was_rerun'] = bool(unfinished) and bool(root_before) and \
+            root_before[0]['state'] in ('ERROR', 'CANCELLED') and all(x['state'] == 'WAITING' and x['sid'] in was_waiting for x in unfinished)
     noreset = [k for k, st in enumerate(t['steps'][:l]) if st['ev']['kind'] == 'op' and st['ev']['what'] == 'rerun' and st['ev'].get('arg') == 'noreset']
-    if clause in ('NoHang', 'NoWaitingAtRest', 'Prescribed') and noreset:
+    if ck in ('NoHang', 'NoWaitingAtRest', 'NoStuckTaskAtRest', 'Prescribed') and noreset:
         o = t['steps'][l - 1]['obs']
         stuck = []
         for x in o['tk']:
@@ -116,22 +141,38 @@ def known_sig(t, l, clause):
                     stuck.append(x['sid'])
         out['items_task_stuck_after_noreset_rerun'] = bool(stuck)
     reruns = [k for k, st in enumerate(t['steps'][:l]) if st['ev']['kind'] == 'op' and st['ev']['what'] == 'rerun' and st['ev']['exc'] == 'none']
-    if clause in ('OnePerIndex', 'CompleteAfterAll', 'WithItemsFinalState', 'WithinLimit', 'NoHang', 'NoStuckTaskAtRest', 'Prescribed') and reruns:
+    if ck in ('OnePerIndex', 'CompleteAfterAll', 'WithItemsFinalState', 'WithinLimit', 'NoHang', 'NoStuckTaskAtRest', 'Prescribed') and reruns:
         # rerun of a with-items task with concurrency: an index is started again while its re-execution is still running
-        k0 = reruns[-1]
-        target = t['steps'][k0]['ev'].get('target', '')
-        before_sids = set(a['sid'] for a in (t['steps'][k0 - 1]['obs']['ax'] if k0 >= 1 else []))
-        seen = {}
         dup_running = False
-        for st in t['steps'][k0:l]:
-            for a in st['obs']['ax']:
-                if a['task'] == target and a['sid'] not in before_sids and a['sid'] not in seen:
-                    sib = [b for b in st['obs']['ax'] if b['task'] == target and b['idx'] == a['idx'] and b['sid'] in seen]
-                    if any(b['state'] in ('RUNNING', 'IDLE') for b in sib):
-                        dup_running = True
-                    seen[a['sid']] = a['idx']
+        for k0 in reruns:
+            target = t['steps'][k0]['ev'].get('target', '')
+            before_sids = set(a['sid'] for a in (t['steps'][k0 - 1]['obs']['ax'] if k0 >= 1 else []))
+            seen = {}
+            for st in t['steps'][k0:l]:
+                for a in st['obs']['ax']:
+                    if a['task'] == target and a['sid'] not in before_sids and a['sid'] not in seen:
+                        sib = [b for b in st['obs']['ax'] if b['task'] == target and b['idx'] == a['idx'] and b['sid'] in seen]
+                        if any(b['state'] in ('RUNNING', 'IDLE') for b in sib):
+                            dup_running = True
+                        seen[a['sid']] = a['idx']
         out['rerun_started_index_twice_while_running'] = dup_running
-    if clause in ('PartialRerunOnlyFailed', 'OnePerIndex', 'CompleteAfterAll', 'WithItemsFinalState', 'Prescribed') and noreset:
+    if ck in ('OnePerIndex', 'CompleteAfterAll', 'WithItemsFinalState', 'NoHang', 'NoStuckTaskAtRest', 'Prescribed') and not reruns:
+        # the same through the retry policy: another attempt of a with-items task with a concurrency limit starts an index a second
+        # time while its re-execution is still running (and leaves a later index out)
+        dup_retry = False
+        seen_ax = {}
+        for st in t['steps'][:l]:
+            for a in st['obs']['ax']:
+                if a['sid'] in seen_ax:
+                    continue
+                d_ = t['prog']['tasks'].get(a['task'].split('/')[-1].split('#')[0], {})
+                if d_.get('items', -1) >= 0 and d_.get('retry', 0) > 0 and d_.get('conc', 0) > 0:
+                    sib = [b for b in st['obs']['ax'] if b['task'] == a['task'] and b['idx'] == a['idx'] and b['sid'] in seen_ax]
+                    if any(b['state'] in ('RUNNING', 'IDLE') for b in sib):
+                        dup_retry = True
+                seen_ax[a['sid']] = 1
+        out['retry_started_index_twice_while_running'] = dup_retry
+    if ck in ('PartialRerunOnlyFailed', 'OnePerIndex', 'CompleteAfterAll', 'WithItemsFinalState', 'Prescribed') and noreset:
         k = noreset[-1]
         before = t['steps'][k - 1]['obs'] if k >= 1 else {'ax': [], 'wf': []}
         target = t['steps'][k]['ev'].get('target', '')
@@ -141,6 +182,42 @@ def known_sig(t, l, clause):
         failed = [a['idx'] for a in kb if a['accepted'] and a['state'] in ('ERROR', 'CANCELLED')]
         new = [a['idx'] for a in ko if a['sid'] not in set(b['sid'] for b in kb)]
         out['extra_indexes_all_after_first_failed'] = bool(failed) and all(i >= min(failed) for i in new)
+    if ck in ('OnePerIndex', 'CompleteAfterAll', 'WithItemsFinalState', 'WithinLimit', 'NoHang', 'NoStuckTaskAtRest', 'Prescribed'):
+        # KF-C07-7: a start_task(first_run=False) message sent by resume_workflow (KF-C10-5) reached a with-items task; `hit` = the
+        # with-items tasks that got one (restarted on top of their running items, or started by it without their policies);
+        # `bad` = the with-items tasks the clause can be about at this step
+        o = t['steps'][l - 1]['obs']
+        hit = set()
+        for st in t['steps'][:l]:
+            e_ = st['ev']
+            if e_['kind'] == 'msg' and e_['what'] == 'start_task' and not e_.get('fr', True) and not e_.get('dup') and \
+                    t['prog']['tasks'].get(e_.get('t', ''), {}).get('items', -1) >= 0:
+                hit.add(e_['t'])
+        bad = set()
+        fin = ('SUCCESS', 'ERROR', 'CANCELLED')
+        live = ('RUNNING', 'IDLE', 'PAUSED', 'DELAYED', 'WAITING')
+        for x in o['tk']:
+            d_ = t['prog']['tasks'].get(x['name'])
+            if not d_ or d_['items'] < 0 or x['wf'] != 'r':
+                continue
+            kids = [a for a in o['ax'] if a['task'] == x['sid']]
+            acc = [a for a in kids if a['accepted']]
+            idxs = [a['idx'] for a in kids]
+            want = 'ERROR' if any(a['state'] == 'ERROR' for a in acc) else 'SUCCESS'
+            if clause == 'OnePerIndex' and len(idxs) != len(set(idxs)):
+                bad.add(x['name'])
+            if clause == 'CompleteAfterAll' and x['state'] in fin and x['wiCount'] >= 0 and \
+                    (any(a['state'] in live for a in acc) or len(set(a['idx'] for a in acc)) != d_['items']):
+                bad.add(x['name'])
+            if clause == 'WithItemsFinalState' and x['state'] in fin and x['wiCount'] >= 0 and x['state'] != want:
+                bad.add(x['name'])
+            if clause == 'WithinLimit' and d_['conc'] > 0 and sum(1 for a in kids if a['state'] in live) > d_['conc']:
+                bad.add(x['name'])
+            if ck in ('NoHang', 'NoStuckTaskAtRest', 'Prescribed') and x['state'] == 'RUNNING' and kids and all(a['state'] in fin for a in kids):
+                bad.add(x['name'])
+        out['offending_items_tasks_all_got_a_resume_start'] = bool(bad) and bad <= hit
+        # ... or are with-items JOINS that were re-armed (KF-C04-1) after they had started their items
+        out['offending_items_tasks_all_rearmed_joins'] = bool(bad) and bad <= rearmed_names
     if clause == 'WithinLimit':
         o = t['steps'][l - 1]['obs']
         over = []
@@ -170,7 +247,7 @@ def known_sig(t, l, clause):
             if d.get('waitBefore', 0) > 0 and not x['isJoin'] and x['sid'] in kid0 and kid0[x['sid']] < born[x['sid']] + d['waitBefore']:
                 viol.append(d)
         out['early_tasks_all_have_pause_before'] = bool(viol) and all(d.get('pauseBefore') for d in viol)
-    if clause in ('NoHang', 'NoStuckTaskAtRest', 'NoWaitingAtRest', 'Prescribed') and rearmed:
+    if ck in ('NoHang', 'NoStuckTaskAtRest', 'NoWaitingAtRest', 'Prescribed') and rearmed:
         # a join that was re-armed (set back to WAITING after it had started / finished) is what is left unfinished at rest
         arm = set()
         for s in t['steps'][:l]:
